@@ -345,8 +345,10 @@ class TypeChecker:
                 self.check_sizeof(expr)
             elif isinstance(expr, ast.FunctionCall):
                 self.check_function_call(expr)
-            else:  # pragma: no cover
-                raise NotImplementedError(str(expr))
+            else:
+                raise SemanticError(
+                    "This kind of expression cannot be used here", expr.loc
+                )
 
         # do rvalue trick here, create a r-value when required:
         if rvalue and expr.lvalue:
